@@ -184,6 +184,12 @@ func errorSwallowedSites(c *Ctx, fn *ssa.Function) []errSite {
 				}
 			}
 		}
+		// a fallback is not a swallow: on the failure branch another fallible action is
+		// attempted and ITS error is tested (try rename, else copy): the nil return
+		// then reports the fallback's success
+		if recoveredByFallback(b, errVal) {
+			continue
+		}
 		what := "swallowed"
 		desc := fmt.Sprintf("returns a nil error on the branch where %s != nil", exprOfValue(errVal))
 		if usedByCall {
@@ -193,6 +199,44 @@ func errorSwallowedSites(c *Ctx, fn *ssa.Function) []errSite {
 		out = append(out, errSite{Fn: fn, Instr: ret, Kind: what, Desc: desc, Key: fmt.Sprintf("%s/return-nil-when %s != nil", funcKey(fn), exprOfValue(errVal))})
 	}
 	return out
+}
+
+// recoveredByFallback: between the test of errVal and the `return nil` in b
+// (blocks that dominate b and are dominated by the failure branch) a call with
+// an error result is made and that error is compared with nil.
+func recoveredByFallback(b *ssa.BasicBlock, errVal ssa.Value) bool {
+	ei, ok := errVal.(ssa.Instruction)
+	if !ok {
+		return false
+	}
+	defBlock := ei.Block()
+	for d := b; d != nil && d != defBlock; d = d.Idom() {
+		for _, ins := range d.Instrs {
+			call, ok := ins.(*ssa.Call)
+			if !ok {
+				continue
+			}
+			var e2 ssa.Value
+			if isErrorType(call.Type()) {
+				e2 = call
+			} else if tup, ok := call.Type().(*types.Tuple); ok && tup.Len() > 0 && isErrorType(tup.At(tup.Len()-1).Type()) && call.Referrers() != nil {
+				for _, ref := range *call.Referrers() {
+					if ex, ok := ref.(*ssa.Extract); ok && ex.Index == tup.Len()-1 {
+						e2 = ex
+					}
+				}
+			}
+			if e2 == nil || e2 == errVal || e2.Referrers() == nil {
+				continue
+			}
+			for _, ref := range *e2.Referrers() {
+				if bo, ok := ref.(*ssa.BinOp); ok && (bo.Op == token.NEQ || bo.Op == token.EQL) && (isNilConst(bo.X) || isNilConst(bo.Y)) {
+					return true
+				}
+			}
+		}
+	}
+	return false
 }
 
 func isNilConst(v ssa.Value) bool {
